@@ -41,12 +41,13 @@ theorem setsim_complete_wide (m : Measure) (hm : SetMeasure m) (a : JoinArgs) (t
     (hpl : Present l a.lAttr ls) (hpr : Present r a.rAttr rs)
     (hne : Spec.bothEmpty (tokensOf (toks true) l a.lAttr ls) (tokensOf (toks true) r a.rAttr rs) = false)
     (hq : Spec.qualStrict m a.compOp a.threshold (tokensOf (toks true) l a.lAttr ls)
-      (tokensOf (toks true) r a.rAttr rs) = true) :
+      (tokensOf (toks true) r a.rAttr rs) = true)
+    (hb : BodyOK a.toTableArgs l r a.outSimScore) :
     ∃ fr, (setSimJoinPy m a t toks cpu).result = .ok fr ∧
       ∃ row ∈ fr.rows, rowKeys row = (keyOf l a.lKey ls, keyOf r a.rKey rs) ∧
         (a.outSimScore = true → rowScore row = scoreCell (Spec.score4 m (tokensOf (toks true) l a.lAttr ls)
           (tokensOf (toks true) r a.rAttr rs))) :=
-  EntryWide.complete_wide m a t toks cpu l r hm hv hth hs ls hls rs hrs hpl hpr hne hq
+  EntryWide.complete_wide m a t toks cpu l r hm hv hth hs ls hls rs hrs hpl hpr hne hq hb
 
 /-- the hypothesis in the form of C01.lean: `a.threshold = .float thr` with `thrLo m ≤ thr ≤ 1` -/
 theorem setsim_complete_wide_float (m : Measure) (hm : SetMeasure m) (a : JoinArgs) (t : TokObj) (toks : TokFn) (cpu : Int)
@@ -56,12 +57,13 @@ theorem setsim_complete_wide_float (m : Measure) (hm : SetMeasure m) (a : JoinAr
     (hpl : Present l a.lAttr ls) (hpr : Present r a.rAttr rs)
     (hne : Spec.bothEmpty (tokensOf (toks true) l a.lAttr ls) (tokensOf (toks true) r a.rAttr rs) = false)
     (hq : Spec.qualStrict m a.compOp (.float thr) (tokensOf (toks true) l a.lAttr ls)
-      (tokensOf (toks true) r a.rAttr rs) = true) :
+      (tokensOf (toks true) r a.rAttr rs) = true)
+    (hb : BodyOK a.toTableArgs l r a.outSimScore) :
     ∃ fr, (setSimJoinPy m a t toks cpu).result = .ok fr ∧
       ∃ row ∈ fr.rows, rowKeys row = (keyOf l a.lKey ls, keyOf r a.rKey rs) ∧
         (a.outSimScore = true → rowScore row = scoreCell (Spec.score4 m (tokensOf (toks true) l a.lAttr ls)
           (tokensOf (toks true) r a.rAttr rs))) :=
-  setsim_complete_wide m hm a t toks cpu l r hv (hthr ▸ .float thr hok) hs ls hls rs hrs hpl hpr hne (hthr ▸ hq)
+  setsim_complete_wide m hm a t toks cpu l r hv (hthr ▸ .float thr hok) hs ls hls rs hrs hpl hpr hne (hthr ▸ hq) hb
 
 /-! non-vacuity.
     (1) The request of `EntrySetSim.Ex` with threshold `2⁻³⁰` (below the former limit `2⁻²⁰`):
@@ -80,14 +82,14 @@ example : ∃ fr, (setSimJoinPy .jaccard exArgsSmall {} exToks 4).result = .ok f
       (exArgsSmall.outSimScore = true → rowScore row = scoreCell (Spec.score4 .jaccard
         (tokensOf (exToks true) exL "s" exLs) (tokensOf (exToks true) exR "s" exRs))) :=
   setsim_complete_wide .jaccard (Or.inl rfl) exArgsSmall {} exToks 4 exL exR exValidSmall (thrSmall .jaccard) exScope
-    exLs exLs_mem exRs exRs_mem exLs_present exRs_present exPair_nonempty exPair_qual_small
+    exLs exLs_mem exRs exRs_mem exLs_present exRs_present exPair_nonempty exPair_qual_small (by decide +kernel)
 
 example : ∃ fr, (setSimJoinPy .jaccard exArgsInt {} exToks1 4).result = .ok fr ∧
     ∃ row ∈ fr.rows, rowKeys row = (keyOf exL "id" exLs, keyOf exR "id" exRs) ∧
       (exArgsInt.outSimScore = true → rowScore row = scoreCell (Spec.score4 .jaccard
         (tokensOf (exToks1 true) exL "s" exLs) (tokensOf (exToks1 true) exR "s" exRs))) :=
   setsim_complete_wide .jaccard (Or.inl rfl) exArgsInt {} exToks1 4 exL exR exValidInt .intOne exScope1
-    exLs exLs_mem exRs exRs_mem exLs_present exRs_present exPair_nonempty1 exPair_qual_int
+    exLs exLs_mem exRs exRs_mem exLs_present exRs_present exPair_nonempty1 exPair_qual_int (by decide +kernel)
 
 example : exArgsInt.threshold = .int 1 ∧ (keyOf exL "id" exLs, keyOf exR "id" exRs) = (Cell.int 1, Cell.int 7) :=
   ⟨rfl, by decide +kernel⟩
